@@ -40,7 +40,25 @@ ENGINES.append({"name": "Options", "path": "coq/theories/Cli/CliOpts.v + coq/the
      "kind_free_text": "site facts regenerated from js/*.go (version gates, groupExpr operand sites) and cmd/minify/main.go (configuration events of run()), checked in Coq against pinned ECMA-262 editions / the documented flag table and executed symbolically; option theorems over the Html/Xml/Json/JsRename models; harness/cmd/optcheck (real CLI binary vs library for every flag x type)"})
 ENGINES.append({"name": "Embed", "path": "coq/theories/Html/HtmlEmbed*.v + coq/theories/Html/HtmlSelect.v + coq/theories/DataUri", "serves_properties": ["C11"],
      "kind_free_text": "F2 Gallina model of html.Minify's token loop with an arbitrary registry of sub-minifiers (dispatch of script/style/iframe text and svg/math tokens, ErrNotExist tolerance, failure propagation) and of the media-type selection from the type attribute (on top of the Dispatch model of parse.Mediatype); harness/cmd/htmloracle (32 stub registries, type-attribute table, recording stubs, real minifiers), svgoracle, cssoracle, dataurichk"})
+ENGINES.append({"name": "Validity", "path": "coq/theories/Props/C09.v (theorems of the JsPrint, Json, Xml, SvgPath, Html, CssVal engines) + harness/cmd/validcheck", "serves_properties": ["C09"],
+     "kind_free_text": "validity / fixed-point theorems of the modelled fragments restated per language; harness/cmd/validcheck: the repository's benchmark samples and fuzz corpora (68 documents up to 1.6 MB) and byte-level mutations / splices of them under three option sets, judged by V8, encoding/json, encoding/xml, x/net/html and a css-syntax-3 checker, plus second pass; every oracle of C01-C07 re-used with a validity filter"})
 CHECKS = {
+    "C09": {
+        "engine": "Validity", "design_ref": "DESIGN.md section 4 / C09",
+        "technique": "Coq theorems on validity and second-pass stability of the modelled output fragments (printer tokens derive in the ECMA-262 grammar and are a fixed point; JSON output is the compact serialisation; attribute literals read back; path data re-lexes) + search with independent parsers and second pass over generated inputs, the repository's real-world documents and their mutations",
+        "text": ("Theorems (Props/C09.v), each for all inputs of its model: printed JS expression tokens derive the paren-stripped tree in the ECMA-262 grammar and "
+                 "printing the re-parsed tree gives the same tokens; every groupExpr site of js/*.go (regenerated) keeps rewritten trees parser-shaped; JSON "
+                 "output is the compact serialisation with valid numbers; XML and HTML attribute literals are well-delimited and read back as one value; CDATA "
+                 "turned into text has no `<`; emitted SVG path data re-lexes to exactly the written numbers and flags; the CSS box rewrite is idempotent and a "
+                 "rewritten hash colour is a colour. Ties: the correspondences of C01-C07. PARTIAL — the property is mostly decided by search: every oracle "
+                 "parses each output with an independent parser and feeds it back (about 60,000 judged outputs per quick run), and validcheck runs the six "
+                 "minifiers under three option sets over the 68 benchmark / corpus documents (up to 1.6 MB) and 1,500 byte-level mutants and splices per quick "
+                 "run, judged by V8, encoding/json, encoding/xml, x/net/html and a css-syntax-3 checker (output validity required whenever the judge accepts "
+                 "the input) plus the second pass. Repaired from these runs: K103, K114, K115, K116; 18 open findings (K28, K30, K42, K43, K62, K63, K66, "
+                 "K68-K70, K75-K77, K86, K98, K99 ...)."),
+        "note": ("Partial. Trusted: Coq kernel, the independent parsers named above as judges of validity, the mutation generator's coverage (printed in the "
+                 "evidence: documents per language, origin, rejected inputs)."),
+    },
     "C11": {
         "engine": "Embed", "design_ref": "DESIGN.md section 4 / C11",
         "technique": "Coq proof of the commutation law minify(host[payload]) = host'[minify(payload)], pass-through and failure location for all registries, options and attribute-free token lists + byte correspondence with stub registries and an exhaustive type-attribute table; search for attribute contexts, escaping, svg/css hosts, data: URIs",
